@@ -64,6 +64,61 @@ def movePos (kids : Items) (cur pos : Nat) : Items :=
     | some mk => (kids.removeAt cur).insertAt mk pos
     | none => kids
 
+/-- `original_paths: FxHashMap<String, Element>` of `move_element_full`: collected in DFS order, a later element with the
+same path replaces the earlier one -/
+def pathsMap (ps : List (Bytes × Nat)) : List (Bytes × Nat) :=
+  ps.foldl (fun acc e => idxInsert acc e.1 e.2) []
+
+/-- `ElementRaw::move_element_full`: the move between two different models (`kx ≠ kp`); the checks of
+`Element::move_element_here[_at]` (versions, insert range, position) have been made by the caller -/
+def opMoveFull (w : World) (kx : Nat) (cx : List (Hdr × Items)) (kp : Nat) (cp : List (Hdr × Items))
+    (p x pos : Nat) : World × Ans :=
+  let m := w.models[kp]!
+  let mx := w.models[kx]!
+  let (xh, xkids) := lastOf cx
+  match cx.dropLast.getLast? with
+  | none => (w, .err)        -- the root element has no parent element
+  | some (sph, spk) =>
+    let srcPrefix := pathOfChain S cx
+    let destPrefix := pathOfChain S cp
+    let fuel := xkids.size + 2
+    let origPaths := pathsMap (subtreePaths S fuel xh xkids (namesOfChain S cx.dropLast))
+    let origRefs := subtreeRefs S fuel xh xkids
+    -- source model: x is taken out of its parent, the paths and the reference origins of the subtree are un-registered
+    let rootx := match spk.childPos x 0 with
+      | some i => mx.rootItems.modify sph.id fun h0 k0 => (h0, k0.removeAt i)
+      | none => mx.rootItems
+    let idxx := origPaths.foldl (fun ix (op : Bytes × Nat) => idxRemove ix op.1) mx.index
+    let rsx := origRefs.foldl (fun rs (r : Bytes × Nat) => refsRemove rs r.1 r.2) mx.refs
+    let w1 := setModel w kx { mx.setRoot rootx with index := idxx, refs := rsx }
+    let xh1 := { xh with parent := .elem p, files := [] }
+    -- unique name in the destination model
+    let (xk1, destPath, nameFail) :=
+      if isIdentifiable S xh xkids then
+        match itemName S xh xkids with
+        | some orig =>
+          let (nm, cnt) := uniqueName m.index destPrefix orig (m.index.length + 2) 0
+          ((if cnt > 0 then setShortName xkids nm else xkids), destPrefix ++ [47] ++ nm, false)
+        | none => (xkids, destPrefix, true)
+      else (xkids, destPrefix, false)
+    if nameFail then
+      -- Rust: make_unique_item_name fails after the element was unlinked and un-registered in the source model
+      (w1, .err)
+    else
+      -- `add_identifiable` for every entry of the path map (an existing entry of the destination is overwritten)
+      let idx1 := origPaths.foldl (fun ix (op : Bytes × Nat) =>
+        if srcPrefix.isPrefixOf op.1 then idxInsert ix (destPath ++ op.1.drop srcPrefix.length) op.2 else ix) m.index
+      -- references of the subtree: those that designate a path of the subtree are rewritten (no value check); all are
+      -- registered in the destination model
+      let (rs1, sub) := origRefs.foldl (fun (acc : List (Bytes × List Nat) × Items) (r : Bytes × Nat) =>
+          if origPaths.any (·.1 == r.1) ∧ srcPrefix.isPrefixOf r.1 then
+            let refstr := destPath ++ r.1.drop srcPrefix.length
+            (refsAdd acc.1 refstr r.2, setRefTexts acc.2 [r.2] refstr)
+          else (refsAdd acc.1 r.1 r.2, acc.2)) (m.refs, Items.elem xh1 xk1 .nil)
+      let root1 := m.rootItems.modify p fun h0 k0 =>
+        (h0, k0.insertAt (fun r => match sub with | .elem sh sk _ => .elem sh sk r | _ => r) pos)
+      (setModel w1 kp { m.setRoot root1 with index := idx1, refs := rs1 }, .ok "")
+
 /-- `move_element_here[_at]` within one model -/
 def opMove (w : World) (p x : Nat) (pos? : Option Nat) : World × Ans :=
   if p = x then (w, .err)
@@ -136,6 +191,23 @@ def opMove (w : World) (p x : Nat) (pos? : Option Nat) : World × Ans :=
                   (setModel w kp { m.setRoot root3 with index := idx1, refs := rs' }, .ok "")
     | _, _ => (w, .err)
   | _, _ => (w, .err)
+
+/-- `move_element_here[_at]`, inside one model or between two models: what the driver runs for `move` requests.  `opMove` makes
+all the checks of `Element::move_element_here[_at]` and answers `.unsupported` exactly when source and destination lie in
+different models; `opMoveFull` (`ElementRaw::move_element_full`) then does the move -/
+def opMoveAny (w : World) (p x : Nat) (pos? : Option Nat) : World × Ans :=
+  match opMove S V w p x pos? with
+  | (_, .unsupported) =>
+    match locate w x, locate w p with
+    | some (kx, cx), some (kp, cp) =>
+      match minVersion V (w.models[kp]!) cp with
+      | some ver =>
+        match insertRange S (lastOf cp).1 (lastOf cp).2 (lastOf cx).1.name ver with
+        | some (_, hi) => opMoveFull S w kx cx kp cp p x (pos?.getD hi)
+        | none => (w, .err)
+      | none => (w, .err)
+    | _, _ => (w, .err)
+  | r => r
 
 /-- `check_version_compatibility` of a value -/
 def valueCompat (v : CDv) (sp : CSpec) (ver : Nat) : Bool :=
